@@ -84,6 +84,7 @@ def run(R):
                     '%s() returns a value on every path (never falls off the end returning None)' % name,
                     witness='path ends at L%d without a return value' % falls[0].lineno if falls else None, tag='returns:' + name)
             c.check(not io_calls(f), f, None, '%s() performs no I/O' % name, kind='flow', tag='no-io:' + name)
+        check_derived_state(c, repo, scr)
         n = 0
         for cl in (scr, repo.cls('ANSI')):
             for f in cl.methods.values():
@@ -98,22 +99,67 @@ def run(R):
     with R.clause('D4', 'DEP', floor=4, desc='insert_abs shifts right: descending loop, read ci-1 write ci, new character last') as c:
         check_insert(c, scr.methods['insert_abs'])
     with R.clause('D8', 'ALIAS', floor=6, desc='scroll moves: rows shift by one inside the region, height kept, no two rows share a list object') as c:
-        from .c18 import check_row_move
-        nmv = 0
+        from .c18 import check_scroll
         for name in ('scroll_up', 'scroll_down'):
-            f = scr.methods[name]
-            for st in iter_nodes(f.node):
-                if isinstance(st, ast.Assign) and isinstance(st.targets[0], ast.Subscript) and isinstance(st.targets[0].slice, ast.Slice) \
-                        and norm(st.targets[0].value) == 'self.w':
-                    nmv += 1
-                    check_row_move(c, f, st, st.targets[0])
-        c.need(nmv == 2, 'expected one row move in scroll_up and one in scroll_down, found %d' % nmv)
+            check_scroll(c, scr.methods[name])
     with R.clause('D5', 'SIB', floor=6, desc='fill_region and get_region clamp and normalise corners identically') as c:
         check_regions(c, scr)
     with R.clause('D6', 'SIGN', floor=8, desc='movement signs; save/restore copy same-named fields') as c:
         check_moves(c, scr)
     with R.clause('D7', 'COMPOSE', floor=5, desc='cr / lf / crlf / put / insert composition') as c:
         check_compose(c, scr)
+
+
+def grid_writers(repo):
+    """functions of screen / ANSI that store into the grid directly (cell store, row store, slice store, list mutator, del)"""
+    out = []
+    for cl in (repo.cls('screen'), repo.cls('ANSI')):
+        for f in cl.methods.values():
+            hit = None
+            for st in iter_nodes(f.node):
+                tgs = []
+                if isinstance(st, (ast.Assign, ast.AugAssign)):
+                    tgs = assigned_targets(st)
+                elif isinstance(st, ast.Delete):
+                    tgs = st.targets
+                elif isinstance(st, ast.Call) and isinstance(st.func, ast.Attribute) and st.func.attr in ('append', 'pop', 'insert', 'remove', 'extend', 'clear', 'reverse', 'sort'):
+                    tgs = [ast.Subscript(value=st.func.value, slice=ast.Constant(value=0), ctx=ast.Store())]
+                for tg in tgs:
+                    root, depth = tg, 0
+                    while isinstance(root, ast.Subscript):
+                        root, depth = root.value, depth + 1
+                    if isinstance(root, ast.Attribute) and root.attr == 'w' and is_name(root.value, 'self') and depth >= 1:
+                        hit = st
+            if hit is not None and f not in [x for x, _ in out]:
+                out.append((f, hit))
+    return out
+
+
+def check_derived_state(c, repo, scr):
+    """accessors describe the grid as it is NOW: they keep no state of their own, or -- if one memoises its result in an attribute --
+    every routine that stores into the grid resets that attribute on all of its paths"""
+    cached = {}
+    for name in ACCESSORS + ('__str__',):
+        f = scr.methods.get(name)
+        if f is None:
+            continue
+        for a, chain in attr_writes_closure(repo, f).items():
+            cached.setdefault(a, (f, chain))
+    if not cached:
+        c.ok(scr.methods['get'], None, 'no accessor writes an attribute of the screen (nothing derived from the grid is remembered)', kind='flow', tag='accessors-stateless')
+        return
+    writers = grid_writers(repo)
+    for a, (af, chain) in sorted(cached.items()):
+        if a in ALL_FIELDS:
+            c.bad(af, None, 'the accessor %s() writes the screen field %s' % (af.name, a), witness=' -> '.join(chain), kind='flow', tag='accessor-writes:' + a)
+            continue
+        for wf, st in writers:
+            g = wf.cfg
+            resets = [n for n in g.nodes if n.kind == 'stmt' and stmt_assigns_attr(n.ast, a) is not None]
+            ok = bool(resets) and g.must_pass(g.entry, {g.exit}, set(resets), skip_labels=('exc', 'raise'))[0]
+            c.check(ok, wf, st, '%s() stores into the grid, so it resets %s, which the accessor %s() fills from the grid and then reuses '
+                    '(otherwise str()/pretty() keep describing the grid as it was)' % (wf.name, a, af.name),
+                    witness='no assignment to self.%s on every path of %s' % (a, wf.qual), kind='path', tag='stale:%s:%s' % (a, wf.name))
 
 
 def check_frame(c, repo, f, groups):
@@ -432,6 +478,7 @@ def check_compose(c, scr):
 
 
 MUTANTS = [
+    ('unicode-memoised', 'screen', "        return u'\\n'.join ([ u''.join(c) for c in self.w ])", "        if getattr(self, '_text', None) is None:\n            self._text = u'\\n'.join ([ u''.join(c) for c in self.w ])\n        return self._text", 'D2'),
     ('erase-line-moves-cursor', 'screen', "        self.fill_region (self.cur_r, 1, self.cur_r, self.cols)\n\n    def erase_down", "        self.fill_region (self.cur_r, 1, self.cur_r, self.cols)\n        self.cur_c = 1\n\n    def erase_down", 'D1'),
     ('cursor-save-also-moves', 'screen', "        self.cur_saved_r = self.cur_r\n        self.cur_saved_c = self.cur_c", "        self.cur_saved_r = self.cur_r\n        self.cur_saved_c = self.cur_c\n        self.cur_c = 1", 'D1'),
     ('scroll-screen-noop', 'screen', "        self.scroll_row_start = 1\n        self.scroll_row_end = self.rows\n\n    def scroll_screen_rows", "        pass\n\n    def scroll_screen_rows", 'D1'),
